@@ -3,6 +3,7 @@ known-findings matcher, evidence writer and the verdict policy of DESIGN.md sect
 import json, os, re, shutil, subprocess, sys, tempfile, time, hashlib
 
 VERIF = os.path.dirname(os.path.dirname(os.path.abspath(__file__)))
+REPO = os.path.normpath(os.path.join(VERIF, '..', 'repo'))   # /repo for /verif; a sibling 'repo' in a scratch sandbox
 SPEC = os.path.join(VERIF, 'spec')
 HARNESS = os.path.join(VERIF, 'harness')
 BUILD = os.path.join(VERIF, '.build')
@@ -25,7 +26,7 @@ def sync_gosum():
     """go.sum of the harness = union of the repository's go.sum files (no network)."""
     lines = set()
     for root in ['', 'mock', 'om', 'rueidisaside', 'rueidiscompat', 'rueidishook', 'rueidislimiter', 'rueidisprob']:
-        p = os.path.join('/repo', root, 'go.sum')
+        p = os.path.join(REPO, root, 'go.sum')
         if os.path.exists(p):
             lines.update(l for l in open(p).read().splitlines() if l.strip())
     p = os.path.join(HARNESS, 'go.sum')
